@@ -90,3 +90,18 @@ def le(bs, signed=False): return int.from_bytes(bytes(bs), 'little', signed=sign
 def f64(bs):
     import struct
     return struct.unpack('<d', bytes(bs))[0]
+
+def playback_native(name, features=()):
+    """generate the concrete-playback unit test in place and run it natively (dev profile): returns (reproduced, output).
+    The harness source is restored afterwards."""
+    import shutil, glob
+    srcs = glob.glob(os.path.join(KDIR, 'src', '*.rs')); backup = {p: open(p).read() for p in srcs}
+    try:
+        cmd = ['cargo', 'kani', '-Z', 'stubbing', '--harness', name, '-Z', 'concrete-playback', '--concrete-playback=inplace'] + (['--features', ','.join(features)] if features else [])
+        subprocess.run(cmd, cwd=KDIR, env=build.cargo_env(), capture_output=True, text=True, timeout=3600, preexec_fn=_limits)
+        cmd = ['cargo', 'kani', 'playback', '-Z', 'concrete-playback'] + (['--features', ','.join(features)] if features else []) + ['--', 'kani_concrete_playback']
+        p = subprocess.run(cmd, cwd=KDIR, env=build.cargo_env(), capture_output=True, text=True, timeout=1800)
+        out = p.stdout + p.stderr
+        return ('FAILED' in out or 'panicked' in out), out
+    finally:
+        for pth, txt in backup.items(): open(pth, 'w').write(txt)
